@@ -2,7 +2,8 @@ import GN.Url.Params
 
 /-! Line protocol for C12.
 `C12 <ctor> <nops> <op>… => <obs>^(nops+1)`
-ctor: `CN` | `CS <hex>` | `CR|CP|CU <n> (k v)^n`
+ctor: `CN` | `CS <hex>` | `CR|CP|CU|CC <n> (k v)^n`   (`CC`: a = new URLSearchParams(pairs); the object under test is
+      `new URLSearchParams(a)`; `a` is kept, and op `X` swaps the two: a copy must be independent of its source)
 op:   `A k v` `D1 k` `D2 k v` `DU k` `S k v` `O` `G k` `L k` `H1 k` `H2 k v` `HU k` `IK` `IV` `IE` `N <i>`
 obs:  `<res> <rt> <n> (k v)^n <toStringHex>`  -/
 
@@ -13,6 +14,7 @@ inductive Op where
   | append (k v : Bytes) | del (k : Bytes) (v : Option Bytes) | set (k v : Bytes) | sort
   | get (k : Bytes) | getAll (k : Bytes) | has (k : Bytes) (v : Option Bytes)
   | iter (typ : Nat) | next (i : Nat)
+  | swap
   deriving Repr, Inhabited
 
 def hx (s : String) : Option Bytes := parseHexBytes s
@@ -45,6 +47,7 @@ def parseOps : List String → Nat → Option (List Op × List String)
       | "IV" :: r => some (.iter 1, r)
       | "IE" :: r => some (.iter 2, r)
       | "N" :: i :: r => do pure (.next (← i.toNat?), r)
+      | "X" :: r => some (.swap, r)
       | _ => none
     match one with
     | none => none
@@ -59,7 +62,8 @@ def obs (res : String) (sp : Params) : String :=
 
 structure St where
   sp : Params
-  iters : List (Nat × Nat)     -- (type, idx)
+  other : Params := []                  -- the source object of a copy construction (ctor CC)
+  iters : List (Nat × Nat × Bool)       -- (type, idx, belongs to `other`)
 
 /-- `useSpec = false`: the code's loops; `true`: the list-level specification -/
 def step (useSpec : Bool) (st : St) : Op → St × String
@@ -70,20 +74,21 @@ def step (useSpec : Bool) (st : St) : Op → St × String
   | .get k => (st, match get st.sp k with | none => "n" | some v => "v" ++ out v)
   | .getAll k => (st, "l" ++ ",".intercalate ((getAll st.sp k).map out))
   | .has k v => (st, if has st.sp k v then "t" else "f")
-  | .iter t => ({ st with iters := st.iters ++ [(t, 0)] }, "-")
+  | .swap => ({ st with sp := st.other, other := st.sp, iters := st.iters.map fun (t, i, o) => (t, i, !o) }, "-")
+  | .iter t => ({ st with iters := st.iters ++ [(t, 0, false)] }, "-")
   | .next i =>
     match st.iters[i]? with
     | none => (st, "noiter")
-    | some (t, idx) =>
-      let (r, idx') := iterNext st.sp idx
+    | some (t, idx, onOther) =>
+      let (r, idx') := iterNext (if onOther then st.other else st.sp) idx
       let res := match r with
         | none => "d"
         | some p => if t == 0 then "k" ++ out p.name else if t == 1 then "v" ++ out p.value
                     else "e" ++ out p.name ++ "," ++ out p.value
-      ({ st with iters := st.iters.set i (t, idx') }, res)
+      ({ st with iters := st.iters.set i (t, idx', onOther) }, res)
 
 def runAll (useSpec : Bool) (init : Params) (ops : List Op) : String :=
-  let st0 : St := ⟨init, []⟩
+  let st0 : St := { sp := init, other := init, iters := [] }
   let (_, outs) := ops.foldl (fun (acc : St × List String) op =>
     let (st, o) := step useSpec acc.1 op
     (st, acc.2 ++ [obs o st.sp])) (st0, [obs "-" init])
@@ -95,7 +100,7 @@ def handle (toks : List String) : String :=
     | "CN" :: r => some ([], r)
     | "CS" :: h :: r => (hx h).map fun b => (parse b, r)
     | c :: n :: r =>
-      if c == "CR" || c == "CP" || c == "CU" then n.toNat?.bind fun n => parsePairs r n else none
+      if c == "CR" || c == "CP" || c == "CU" || c == "CC" then n.toNat?.bind fun n => parsePairs r n else none
     | _ => none
   match ctor with
   | some (init, n :: rest) =>
